@@ -8,7 +8,9 @@
 #include "common.h"
 _Bool nondet_bool(void); uint64_t nondet_u64(void);
 int __CPROVER_uninterpreted_id_has(CgroupContext); uint64_t __CPROVER_uninterpreted_id_val(CgroupContext);
-opt_uint64_t CgroupContext__id(CgroupContext c) { opt_uint64_t o; o.has = __CPROVER_uninterpreted_id_has(c) != 0; o.val = __CPROVER_uninterpreted_id_val(c); return o; }   /* fixed within the tick (C15) */
+_Bool g_cur_has; uint64_t g_cur_id;      /* the id of the resolved cgroup the merge is looking at */
+_Bool g_tick_failed; uint64_t g_tick_pos;   /* the last tick reported its cgroup invalid, and for which tracked entry */
+opt_uint64_t CgroupContext__id(CgroupContext c) { opt_uint64_t o; o.has = __CPROVER_uninterpreted_id_has(c) != 0; o.val = __CPROVER_uninterpreted_id_val(c); g_cur_has = o.has; g_cur_id = o.val; return o; }   /* fixed within the tick (C15) */
 vec_CgroupContext OomdContext__reverseSort__uset_CgroupPath_lambda_t(OomdContext ctx, uset_CgroupPath cgs, opt_uint64_t (*key)(CgroupContext)) { vec_CgroupContext v; __CPROVER_assume(v.n <= VEC_MAX); return v; }
 vecrit_CgroupContext vec_CgroupContext__crbegin(vec_CgroupContext v) { vecrit_CgroupContext it; it.vid = v.vid; it.i = v.n; it.n = v.n; return it; }
 vecrit_CgroupContext vec_CgroupContext__crend(vec_CgroupContext v) { vecrit_CgroupContext it; it.vid = v.vid; it.i = 0; it.n = v.n; return it; }
@@ -34,7 +36,12 @@ void umap_uint64_t_Senpai_CgroupState__erase_range(umap_uint64_t_Senpai_CgroupSt
 #define ERASE_PICK(_1, _2, _3, NAME, ...) NAME
 #define umap_uint64_t_Senpai_CgroupState__erase(...) ERASE_PICK(__VA_ARGS__, umap_uint64_t_Senpai_CgroupState__erase_range, umap_uint64_t_Senpai_CgroupState__erase1)(__VA_ARGS__)
 tit_t umap_uint64_t_Senpai_CgroupState__erase1(umap_uint64_t_Senpai_CgroupState m, tit_t it)
-{ __CPROVER_assert(it.pos > 0, "UB: erase(end())"); g_erased = g_erased + 1; it.pos = it.pos - 1; return it; }
+{ __CPROVER_assert(it.pos > 0, "UB: erase(end())");
+  /* the state of a cgroup that is still there and still valid is KEPT from tick to tick: an entry is dropped only when its
+     cgroup is gone (its id is smaller than the next resolved one's) or when its own tick just reported the cgroup invalid */
+  __CPROVER_assert((g_cur_has && __CPROVER_uninterpreted_tkey(it.pos) < g_cur_id) || (g_tick_failed && g_tick_pos == it.pos),
+                   "a tracked cgroup's state is dropped only when the cgroup is gone or its tick failed"); /*@C18*/
+  g_erased = g_erased + 1; it.pos = it.pos - 1; return it; }
 void umap_uint64_t_Senpai_CgroupState__emplace_hint(umap_uint64_t_Senpai_CgroupState m, tit_t hint, uint64_t id, Senpai_CgroupState st)
 { __CPROVER_assert(hint.pos == 0 || id < __CPROVER_uninterpreted_tkey(hint.pos), "inserted before the hint: the map stays ordered by id"); g_inserted = g_inserted + 1; }
 tit_t ext__next(tit_t it) { __CPROVER_assert(it.pos > 0, "UB: std::next(end())"); it.pos = it.pos - 1; return it; }
@@ -43,18 +50,18 @@ uint64_t g_inits, g_ticks;
 opt_Senpai_CgroupState Senpai__initializeCgroup(Senpai *self, CgroupContext c) { g_inits = g_inits + 1; opt_Senpai_CgroupState o; o.has = nondet_bool(); return o; }
 static inline _Bool tick_common(CgroupContext c, Senpai_CgroupState *st)
 { __CPROVER_assert(st == &g_slot.second && __CPROVER_uninterpreted_id_has(c) != 0 && g_slot.first == __CPROVER_uninterpreted_id_val(c), "a cgroup is driven only from the state stored under its own id"); /*@C18*/
-  g_ticks = g_ticks + 1; return nondet_bool(); }
+  g_ticks = g_ticks + 1; _Bool r = nondet_bool(); g_tick_failed = !r; g_tick_pos = g_slot_rem; return r; }
 _Bool Senpai__tick(Senpai *self, CgroupContext c, Senpai_CgroupState *st) { return tick_common(c, st); }
 _Bool Senpai__tick_immediate_backoff(Senpai *self, CgroupContext c, Senpai_CgroupState *st) { return tick_common(c, st); }
 #define LOOPC_Senpai__run_1 \
-  __CPROVER_assigns(resolvedIt, trackedIt, g_slot, g_slot_rem, g_erased, g_inserted, g_inits, g_ticks) \
+  __CPROVER_assigns(resolvedIt, trackedIt, g_slot, g_slot_rem, g_erased, g_inserted, g_inits, g_ticks, g_cur_has, g_cur_id, g_tick_failed, g_tick_pos) \
   __CPROVER_loop_invariant(resolvedIt.vid == resolved_cgroups.vid && resolvedIt.n == resolved_cgroups.n && resolvedIt.i <= resolved_cgroups.n && trackedIt.pos <= g_tracked_left && ghost_exc == 0) \
   __CPROVER_loop_invariant(g_erased >= __CPROVER_loop_entry(g_erased) && g_erased - __CPROVER_loop_entry(g_erased) <= g_tracked_left && g_erased - __CPROVER_loop_entry(g_erased) + trackedIt.pos <= g_tracked_left) \
   /* every pass consumes a resolved cgroup or a tracked entry: the tick cannot hang */ \
   __CPROVER_decreases(resolvedIt.i + trackedIt.pos)
 PluginRet Senpai__run(Senpai *self, OomdContext ctx)
   __CPROVER_requires(__CPROVER_is_fresh(self, sizeof(*self)) && ghost_exc == 0 && g_tracked_left <= VEC_MAX && self->log_ticks_ >= 0 && self->log_ticks_ < (1L << 62) && g_erased <= (1UL << 40))
-  __CPROVER_assigns(self->log_ticks_, g_slot, g_slot_rem, g_erased, g_inserted, g_inits, g_ticks)
+  __CPROVER_assigns(self->log_ticks_, g_slot, g_slot_rem, g_erased, g_inserted, g_inits, g_ticks, g_cur_has, g_cur_id, g_tick_failed, g_tick_pos)
   __CPROVER_ensures(__CPROVER_return_value == PluginRet__CONTINUE && ghost_exc == 0) /*@C10*/
   /* every tracked entry was either kept by a tick or erased */
   __CPROVER_ensures(g_erased - __CPROVER_old(g_erased) <= g_tracked_left) /*@C18*/;
